@@ -39,7 +39,7 @@ THREADS = [1, 2, 3, 16]
 RTOL = 1e-12
 # the harness switches thread counts with omp_set_num_threads (up to 16 on a shared machine): let idle threads sleep instead of spinning
 OMPENV = {"OMP_WAIT_POLICY": "PASSIVE", "GOMP_SPINCOUNT": "0"}
-STATS = {"fd_entries_checked": 0, "fd_entries_skipped_kink_or_roundoff": 0, "exact_cases": 0, "tolerance_cases": 0, "minibatch_lines": 0}
+STATS = {"auc_exact": 0, "auc_rounded": 0, "fd_entries_checked": 0, "fd_entries_skipped_kink_or_roundoff": 0, "exact_cases": 0, "tolerance_cases": 0, "minibatch_lines": 0}
 NAMES = {"sq": "SquaredLoss<RealVector,RealVector>", "sqc": "SquaredLoss<RealVector,unsigned int>", "hinge": "HingeLoss", "sqhinge": "SquaredHingeLoss",
          "eps": "EpsilonHingeLoss", "sqeps": "SquaredEpsilonHingeLoss", "huber": "HuberLoss", "abs": "AbsoluteLoss", "ce": "CrossEntropy<unsigned int,RealVector>",
          "cev": "CrossEntropy<RealVector,RealVector>", "zov": "ZeroOneLoss<unsigned int,RealVector>", "zo": "ZeroOneLoss<unsigned int,unsigned int>", "disc": "DiscreteLoss"}
@@ -268,14 +268,28 @@ def gen_reg_case(rng):
     return ["G %s | %s | %s" % (reg, " ".join(map(fq, mask)), " ".join(map(fq, x))) for reg in ("one", "two")]
 
 def gen_auc_case(rng):
-    n = rng.randint(2, 12)
+    """NegativeAUC: ties between scores (scores drawn from a small pool), one class absent (the code returns NaN), a single element,
+    the empty data set (documented exception), labels > 1 (every label > 0 is positive), class sizes that are powers of two (then
+    every double operation of the sweep is exact and the comparison with the model is exact), unequal batches, several thread counts"""
+    r = rng.random()
+    n = 0 if r < 0.03 else (1 if r < 0.08 else (rng.randint(8, 20) if r < 0.3 else rng.randint(2, 12)))
     labs = [rng.randint(0, 1) for _ in range(n)]
-    if sum(labs) == 0: labs[0] = 1
-    if sum(labs) == n: labs[-1] = 0
-    sc = [fq(rng.choice([dyq(rng, -3, 3, (1, 2)), Fraction(rng.randint(-1, 1))])) for _ in range(n)]
+    if n >= 2:
+        mode = rng.random()
+        if mode < 0.06: labs = [1] * n
+        elif mode < 0.12: labs = [0] * n
+        elif mode < 0.65:
+            P = rng.choice([p for p in (1, 2, 4, 8, 16) if p < n]); N = rng.choice([q for q in (1, 2, 4, 8, 16) if q <= n - P])
+            n = P + N; labs = [1] * P + [0] * N; rng.shuffle(labs)
+        else:
+            if sum(labs) == 0: labs[0] = 1
+            if sum(labs) == n: labs[-1] = 0
+    if rng.random() < 0.2: labs = [l * rng.choice([1, 2, 3]) for l in labs]
+    pool = [dyq(rng, -3, 3, (1, 2)) for _ in range(rng.choice([1, 2, 3, 3, 5, 9, 30]))]
+    sc = [fq(rng.choice(pool)) for _ in range(n)]
     lines = []
     for inv in (0, 1):
-        lines.append("A %d 1 | %d | %s | %s" % (inv, n, " ".join(map(str, labs)), " ".join(sc)))
+        lines.append("A %d 1 | %s | %s | %s" % (inv, str(n) if n else "", " ".join(map(str, labs)), " ".join(sc)))
         lines.append("A %d %d | %s | %s | %s" % (inv, rng.choice(THREADS), " ".join(map(str, partition(rng, n))), " ".join(map(str, labs)), " ".join(sc)))
     return lines
 
@@ -425,7 +439,7 @@ def mon_case(lines, outs):
     base = toks(outs[0])
     for line, out in zip(lines, outs):
         s = sections(line); hd = s[0]; k = hd[0]; d = toks(out)
-        if out.split()[1:2] in (["EXC"], ["STDEXC"]) or (k not in "GA" and "v" not in d and "m" not in d and "z" not in d):
+        if k != "A" and (out.split()[1:2] in (["EXC"], ["STDEXC"]) or (k not in "G" and "v" not in d and "m" not in d and "z" not in d)):
             bad.append("%s:%s:exception| `%s`: %s" % (k, hd[1], shape(line), out[:200])); continue
         if k == "L": bad += mon_L(line, out, tol)
         elif k == "D": bad += mon_D(line, out)
@@ -500,10 +514,19 @@ def mon_case(lines, outs):
         elif k == "A":
             labs = [int(x) for x in s[2]]; sc = [pq(x) * (-1 if hd[1] == "1" else 1) for x in s[3]]
             pos = [x for x, l in zip(sc, labs) if l > 0]; neg = [x for x, l in zip(sc, labs) if l == 0]
-            want = -sum(Fraction(1) if a > b else (Fraction(1, 2) if a == b else Fraction(0)) for a in pos for b in neg) / (len(pos) * len(neg))
-            a = fh(d.get("a", "nan"))
-            if not close(a, float(want), 1.0, 1e-12):
-                bad.append("A:auc| NegativeAUC(invert=%s) threads=%s batches=%s labels=%s scores=%s: %r, pair counting gives %r" % (hd[1], hd[2], s[1], s[2], s[3], a, float(want)))
+            what = "NegativeAUC(invert=%s) threads=%s batches=%s labels=%s scores=%s" % (hd[1], hd[2], s[1], s[2], s[3])
+            if not labs:
+                if out.split()[1:2] != ["EXC"]: bad.append("A:auc:empty| %s: empty data set, documented exception expected, got %s" % (what, out[:80]))
+            elif "a" not in d:
+                bad.append("A:auc:exception| %s: %s" % (what, out[:160]))
+            elif not pos or not neg:
+                # pair counting is 0/0 here: the code as written returns NaN (no test, no exception); any number would be an invention
+                if not math.isnan(fh(d["a"])): bad.append("A:auc:undefined| %s: one class is absent (0/0), the call returns the number %r" % (what, fh(d["a"])))
+            else:
+                want = -sum(Fraction(1) if a > b else (Fraction(1, 2) if a == b else Fraction(0)) for a in pos for b in neg) / (len(pos) * len(neg))
+                a = fh(d["a"])
+                if not close(a, float(want), 1.0, 1e-12):
+                    bad.append("A:auc| %s: %r, pair counting -(#{s_p > s_n} + #{s_p = s_n}/2)/(#pos #neg) gives %r" % (what, a, float(want)))
     return bad
 
 def mon_Z(line, out):
@@ -545,8 +568,36 @@ def num_equal(m, x, loose, scale=0.0):
     inexact = m.denominator & (m.denominator - 1) != 0
     return (loose or inexact) and abs(Fraction(x) - m) <= Fraction(1, 10 ** 15) * max(abs(m), 1)
 
+def auc_equal(line, mo, io):
+    """NegativeAUC, model (exact rational | nan | EXC) vs implementation: exact when both class sizes are powers of two (then FP/N, TP/P
+    and everything built from them is exact in double); otherwise the divisions round and the sum of at most 21 trapezoids is compared at 1e-14"""
+    if "EXC" in mo.split()[1:2] or "EXC" in io.split()[1:2]: return mo.split()[1:2] == io.split()[1:2]
+    dm, di = toks(mo), toks(io)
+    if "a" not in dm or "a" not in di: return False
+    x = fh(di["a"])
+    if dm["a"] == "nan": return math.isnan(x)
+    if not finite(x): return False
+    m = mq(dm["a"])
+    labs = [int(t) for t in sections(line)[2]]; P = sum(1 for l in labs if l > 0); N = len(labs) - P
+    if P & (P - 1) == 0 and N & (N - 1) == 0:
+        STATS["auc_exact"] += 1; return Fraction(x) == m
+    STATS["auc_rounded"] += 1
+    return abs(Fraction(x) - m) <= Fraction(1, 10 ** 14)
+
+def seq_equal(line, mo, io):
+    """SquaredLoss<Sequence,Sequence>, model vs implementation: exact (dyadic data)"""
+    if "EXC" in mo.split()[1:2] or "EXC" in io.split()[1:2]: return mo.split()[1:2] == io.split()[1:2]
+    dm, di = toks(mo), toks(io)
+    if set(dm) != set(di) or "MODELEXC" in mo: return False
+    if dm["gn"] != di["gn"] or dm["gl"] != di["gl"]: return False
+    for key in ("v", "dv", "g"):
+        la, lb = mql(dm[key]), fhl(di[key])
+        if len(la) != len(lb) or any(not finite(y) or Fraction(y) != x for x, y in zip(la, lb)): return False
+    return True
+
 def line_equal(line, mo, io):
     k = line[0]
+    if k == "A": return auc_equal(line, mo, io)     # every A line is modelled
     if mo.split()[1:2] == ["-"]: return True          # not modelled
     if "MODELEXC" in mo: return False
     dm, di = toks(mo), toks(io)
@@ -725,25 +776,35 @@ def main():
               "" if zfail == 0 and not zdis else "%d cases fail the monitor, %d disagree with the model" % (zfail, len(zdis)))
     ck.notes["failures_matching_known_findings"] = zknown
 
-    # ---------------- SquaredLoss<Sequence,Sequence>: spec monitor only (value, derivative value, gradient incl. the ignored prefix, reused gradient objects)
+    # ---------------- SquaredLoss<Sequence,Sequence>: model C06ExtModel.seq_eval / seq_evald (exact) + spec monitor
+    # (value, derivative value, gradient incl. the ignored prefix, reused gradient objects, documented exception)
     scases = []
     if not ck.replay:
         scases = [gen_seq_case(rng) for _ in range(150 * (8 if big else 1))]
     else:
         scases = [[l] for l in open(ck.replay).read().split("\n") if l.startswith("S ")]
     so = run_cases(exe, scases, os.path.join(tmpd, "s_in.txt"), env=OMPENV) if scases else []
-    sfail = 0; seen = set()
-    for c, (o, rc, e) in zip(scases, so):
+    sm = run_cases(model, scases, os.path.join(tmpd, "s_model_in.txt")) if scases else []
+    sfail = 0; seen = set(); sdis = []
+    for ci, (c, (o, rc, e)) in enumerate(zip(scases, so)):
         msgs = [("S:seq:crash", "implementation crashed on `%s`" % c[0])] if rc != 0 or len(o) != 1 else mon_S(c[0], o[0])
+        if not msgs and not (sm[ci][1] == 0 and len(sm[ci][0]) == 1 and seq_equal(c[0], sm[ci][0][0], o[0])): sdis.append(ci)
         for key, msg in msgs[:1]:
             if ck.match_known(key) is None: sfail += 1
             if key not in seen:
                 seen.add(key)
                 cf = ck.write_replay("s_%s.txt" % key.split(":")[2], c[0] + "\n")
-                ck.violation(key, {"case_file": cf, "case": c, "implementation_output": o, "monitor": msg, "replay_cmd": "python3 tools/c06.py --replay %s" % cf},
+                ck.violation(key, {"case_file": cf, "case": c, "implementation_output": o, "model_output": sm[ci][0], "monitor": msg, "replay_cmd": "python3 tools/c06.py --replay %s" % cf},
                              "spec monitor fails on the implementation: " + msg)
+    if sdis and not sfail:
+        ci = sdis[0]; c = scases[ci]
+        cf = ck.write_replay("s_corr_%d.txt" % ci, c[0] + "\n")
+        ck.violation("correspondence", {"case_file": cf, "case": c, "model_output": sm[ci][0], "implementation_output": so[ci][0], "broken": "correspondence C06ExtModel.seq_eval/seq_evald vs /repo",
+                                        "replay_cmd": "python3 tools/c06.py --replay %s" % cf},
+                     "correspondence C06ExtModel.seq_eval/seq_evald vs SquaredLoss<Sequence,Sequence> no longer checks (outputs differ on %d cases, first: `%s`: model %s, implementation %s); the spec monitor passes" % (len(sdis), c[0], sm[ci][0], so[ci][0]), no_input=True)
     if scases:
-        ck.oblige("SquaredLoss<Sequence,Sequence>: value = evalDerivative value = half squared distance over the counted elements, gradient = derivative (zero on the ignored prefix), fresh and reused gradient objects, on %d cases" % len(scases), sfail == 0)
+        ck.oblige("SquaredLoss<Sequence,Sequence> = C06ExtModel.seq_eval / seq_evald exactly; value = evalDerivative value = half squared distance over the counted elements, gradient = derivative (zero on the ignored prefix), fresh and reused gradient objects, on %d cases" % len(scases),
+                  sfail == 0 and not sdis, "" if sfail == 0 and not sdis else "%d cases fail the monitor, %d disagree with the model" % (sfail, len(sdis)))
 
     # ---------------- coverage
     allc = cases + zcases + scases
